@@ -25,7 +25,10 @@ TraceNext ==
   /\ LET e == Tr[l]
          s == Step(e)
          x == LcObs(s.k, s.o)
-     IN /\ (IF "exc" \in DOMAIN e.obs THEN Bad(e, "exc")
+         \* a CFDP data field cannot exceed 65 535 octets: a setter (or constructor) leading there must be refused
+         over == LcIsPdu(s.k) /\ s.o.cached > 65535
+     IN /\ (IF over THEN (IF "exc" \in DOMAIN e.obs THEN TRUE ELSE Bad(e, "oversize-accepted"))
+            ELSE IF "exc" \in DOMAIN e.obs THEN Bad(e, "exc")
             ELSE /\ (IF x.octets = e.obs.octets THEN TRUE ELSE Bad(e, "octets"))
                  /\ (IF x.plen = e.obs.plen THEN TRUE ELSE Bad(e, "len.reported"))
                  /\ (IF x.cached = e.obs.cached THEN TRUE ELSE Bad(e, "len.field"))
